@@ -12,6 +12,14 @@ D0, D1, D2 = 1024 * B, 32 * B, B
 RK_ID = uuid.UUID("d778c271-9025-9a82-f6dc-b8960b8ad8c5")
 RK = bytes(range(64))
 
+MANIFEST = {
+    "text": "Coq theorems over the interval arithmetic regenerated from _get_protection_gke_from_cache on every run: for all t >= 0 the named (L0,L1,L2) are the floor formulas, "
+            "the named interval contains t and is the unique such in-range triple; unbounded in t. Tie to the code: the kernels ARE the code's expressions (translator), plus a "
+            "correspondence run of ncrypt_protect_secret under a patched clock on boundary tables against the extracted model.",
+    "note": "Assumes time.time_ns() is the only clock read; float division is modelled as exactly rounded binary64 (validated against CPython by unit truediv.prim).",
+    "technique": "Coq proof (lia over regenerated kernels) + differential correspondence",
+}
+
 ASSUMPTIONS = [
     "time.time_ns() is the only clock read (patched in the harness process for the correspondence runs)",
     "the kernel extractor's translation of // % * + and int(a / b) (the latter as exactly rounded binary64 division, validated by unit truediv.prim)",
